@@ -511,7 +511,10 @@ HIST_FIRST_DT = [None, "A", "i", "f", "Z", "J", "H", "B"]
 # set_datatype -- a declaration may precede the value, so whether it outlives
 # the value is left open: only delete() is judged)
 HIST_PROGRAMS = ("set,delete,set", "parsed,delete,set",
-                 "set,delete,set,delete,set")
+                 "set,delete,set,delete,set",
+                 # a clone and its original are two lines: the first value goes
+                 # to the clone, the second to the original (and vice versa)
+                 "clone:copy-first", "clone:original-first")
 
 
 def _hv(kind, d):
@@ -552,6 +555,28 @@ def hist_case(prog, i, dt1, j, version, host, vlevel):
     want = _tag_state(fresh, name)
   except gfapy.Error as e:
     want = ("<{}>".format(type(e).__name__),) * 3
+  if prog.startswith("clone:"):
+    if dt1 is not None:
+      return None
+    orig = gfapy.Line(host, vlevel=vlevel, version=version)
+    copy = orig.clone()
+    first, second = (copy, orig) if prog == "clone:copy-first" else (orig, copy)
+    try:
+      first.set(name, _hv(k1, d1))
+      first.field_to_s(name, tag=True)
+    except gfapy.Error:
+      return None
+    try:
+      second.set(name, _hv(k2, d2))
+      got = _tag_state(second, name)
+    except gfapy.Error as e:
+      got = ("<{}>".format(type(e).__name__),) * 3
+    if got != want:
+      return [("clone-shares-tag-datatypes",
+               "{}: the tag set on the second line reads {!r} (datatype {}), "
+               "on a fresh line {!r} (datatype {})".format(
+                   prog, got[0], got[1], want[0], want[1]))]
+    return []
   steps = prog.split(",")
   if steps[0] == "parsed":
     # the old tag comes from the text of the line
